@@ -22,6 +22,7 @@ UNDECIDED = ["panics, aborts, stack use and termination inside dependencies (ser
 TRUSTED = ["dependencies do not panic on any input and std's Read/Iterator contracts hold"]
 ASSUMPTIONS = ["usize/u64 counters incremented once per consumed element cannot overflow in practice (2^64 steps)"]
 FLOORS = {"C14/D1": 60, "C14/D2": 2, "C14/D3": 20, "C14/scope": 1}
+FLOORS_RELEASE = {"C14/D1": 25, "C14/D2": 2, "C14/D3": 20, "C14/scope": 1}    # no overflow asserts without overflow checks
 
 ENTRY_PATTERNS = [
     r"^verifylib::in_toto_verify$",
@@ -354,6 +355,12 @@ def discharge(fx, body, bb, t, kind, descr, cg=None, fkey=None):
                     if lf.kind == "binop" or (lf.kind == "other"):
                         pass
                 d = body.single_def(p["l"])
+                # release profile: idx = Sub(len, 1) without an overflow check
+                if d and d.kind == "assign" and d.node["rv"]["k"] == "binop" and d.node["rv"]["op"] in ("Sub", "SubUnchecked"):
+                    bo = d.node["rv"]
+                    lx = _is_len_of(body, bo["a"])
+                    if lx is not None and same_root(body, lx, coll) and const_int(body, bo["b"]) == 1 and lb >= 1:
+                        return ("G2", "index len-1 under a non-empty guard")
                 # idx = move (_t.0), _t = SubWithOverflow(len, 1)
                 if d and d.kind == "assign" and d.node["rv"]["k"] == "use":
                     q = op_place(d.node["rv"]["op"])
